@@ -107,6 +107,44 @@ class W_Arity(Module):
         return out                      # R-ARITY: one entry for two inputs
 
 
+class W_Affine(Module):
+    def _response(self, x):
+        self.x = x
+        return x * 2
+
+    def _sensitivity(self, dy):
+        g = dy * 2.0
+        g[0] = self.x[0]               # R-LINEAR: constant stored into a seed-linear buffer
+        return g + 1.0                 # R-LINEAR: affine
+
+
+import functools
+
+
+@functools.lru_cache(maxsize=8)
+def w_table(n):
+    return np.ones(n)
+
+
+def w_use_table(n, t):
+    tab = w_table(n)
+    tab *= t                           # R-SHARED-STATE: mutates a memoised result
+    return tab
+
+
+class W_ClassCache(Module):
+    _cache = {}
+
+    def _response(self, x):
+        key = x.size
+        if key not in self._cache:
+            self._cache[key] = x * 2   # R-SHARED-STATE: class-level container written by a method
+        return self._cache[key]
+
+    def _sensitivity(self, dy):
+        return dy * 2
+
+
 class W_Solver(LinearSolver):
     def update(self, A):
         self.A = A
